@@ -251,23 +251,27 @@ impl CelsData<RawPixels> {
             data: Vec::with_capacity(self.data.len()),
             num_frames,
         };
-        // Mapping from CelId -> bool. True if the cel can be used as a target
-        // for a linked cel. That means it must exist, and it must be a raw cel.
-        // We copy it out here, so we can consume the actual data in the
-        // validation/transformation step.
-        let mut is_linkable_cel: Vec<bool> = Vec::with_capacity(num_frames as usize * num_layers);
-        for frame in 0..num_frames {
-            for layer in 0..num_layers {
-                let cel_id = CelId {
-                    frame: frame as u16,
-                    layer: layer as u16,
-                };
-                is_linkable_cel.push(self.cel(cel_id).map_or(false, |c| c.content.is_raw()));
-            }
-        }
+        // Mapping from frame -> layer -> bool. True if the cel can be used as a
+        // target for a linked cel. That means it must exist, and it must be a
+        // raw cel. We copy it out here, so we can consume the actual data in
+        // the validation/transformation step.
+        let is_linkable_cel: Vec<Vec<bool>> = self
+            .data
+            .iter()
+            .map(|cels_by_layer| {
+                cels_by_layer
+                    .iter()
+                    .map(|cel| cel.as_ref().map_or(false, |c| c.content.is_raw()))
+                    .collect()
+            })
+            .collect();
         let validate_ref = |id: CelId| {
-            let index = id.frame as usize * num_layers + id.layer as usize;
-            if is_linkable_cel[index] {
+            let linkable = is_linkable_cel
+                .get(id.frame as usize)
+                .and_then(|cels_by_layer| cels_by_layer.get(id.layer as usize))
+                .copied()
+                .unwrap_or(false);
+            if linkable {
                 Ok(())
             } else {
                 Err(AsepriteParseError::InvalidInput(format!(
